@@ -28,6 +28,12 @@ func init() {
 		"time.Since": func(fr *Frame, st *State, a []Val, p token.Pos) Val { return timeSub(fr.run.clockRead(st), fr.toTerm(a[0])) },
 		"time.Until": func(fr *Frame, st *State, a []Val, p token.Pos) Val { return timeSub(fr.toTerm(a[0]), fr.run.clockRead(st)) },
 	}
+	natives["fmt.Sprintf"] = func(fr *Frame, st *State, a []Val, p token.Pos) Val {
+		return fr.formatCall(st, fr.curCall, a, "sprintf", 0, "Str")
+	}
+	natives["fmt.Sprint"] = func(fr *Frame, st *State, a []Val, p token.Pos) Val {
+		return fr.run.havoc("sprint", "Str")
+	}
 	pureNatives = map[string]pureNativeFn{}
 	B := types.Typ[types.Bool]
 	I64 := types.Typ[types.Int64]
